@@ -82,6 +82,7 @@ def _work(args):
     out["violations"] = en.violations
     out["samples"] = en.samples
     out["leftover"] = en.leftover
+    out["inconclusive"] = en.inconclusive
     return out
 
 
@@ -116,6 +117,11 @@ def run_obligation(obl, pool):
                     samples.append(smp)
             if out["error"]:
                 res["errors"].append(out["error"] + "\n" + out.get("tb", ""))
+                stop = True
+            for msg in out.get("inconclusive", []):
+                if len(res["errors"]) < 4:
+                    res["errors"].append("inconclusive path: " + msg)
+            if stats.get("inconclusive_paths", 0) >= 200:
                 stop = True
             if len(violations) >= 8:
                 stop = True
